@@ -971,7 +971,7 @@ pub fn normalise_obs(p: &[Word]) -> Vec<Word> {
     // the number of values actually returned (<= n: a range ends when the key overflows) follows from
     // the first pair: the first value sits right behind the k [address, length] pairs
     let k = match w.first() {
-        Some(a) if *a >= base && (*a - base) % 2 == 0 && (*a - base) / 2 <= n.clamp(0, 64) => ((*a - base) / 2) as usize,
+        Some(a) if *a >= base && (*a - base) % 2 == 0 && (*a - base) / 2 <= n.clamp(0, 2048) => ((*a - base) / 2) as usize,
         _ => 0,
     };
     for i in 0..k {
